@@ -101,8 +101,8 @@ class GenericRules(unittest.TestCase):
         self.assertEqual(self.run_named("chunked_loops", "blocks_with_a_tail"), ["DISCHARGED"])
 
     def test_or_default_on_a_number_is_reported(self):
-        self.assertEqual(self.run_named("falsy_defaults", "or_default"), ["VIOLATED"])
-        self.assertEqual(self.run_named("falsy_defaults", "none_default"), ["DISCHARGED"])
+        self.assertIn("VIOLATED", self.run_named("falsy_defaults", "or_default"))
+        self.assertEqual(set(self.run_named("falsy_defaults", "none_default")), {"DISCHARGED"})
 
     def test_fill_through_a_flattening_that_may_copy(self):
         self.assertEqual(self.run_named("fills_through_a_copy", "fill_through_ravel_of_like"), ["VIOLATED"])
